@@ -18,7 +18,7 @@ func init() {
 	})
 	register(&Prop{
 		ID: "C15",
-		Rules: []*Rule{rProbeOrder, rVisitAll, rDomainGetter, rFramePerEntry, rReport, rReverse, rFuncName, rIndexFound, rPerLayer, scoped(rWalkMulti, "the report visitor", func(_ *core.Ctx, k string) bool { return strings.Contains(k, "visitAllMulti") }), rStackSlot, rStackParse, scoped(rStackEmpty, "the frame parser", func(_ *core.Ctx, k string) bool { return strings.Contains(k, "parsePrintedStack:") }), scoped(rOneParser, "GetReportableStackTrace", func(_ *core.Ctx, k string) bool { return containsAny(k, "GetReportableStackTrace", "convertPkgStack") }), rEffectReport, {Name: "R-TAINT/S5", Doc: "the S5 sub-class of R-TAINT: provenance of every value written into the Sentry message, exceptions and extras", Run: func(c *core.Ctx) { runTaintFiltered(c, func(s *Sink) bool { return s.Class == "S5" }) }},
+		Rules: []*Rule{scoped(rOpaque, "the type names a received layer reports (getTypeDetails of the opaque types)", func(_ *core.Ctx, k string) bool { return strings.Contains(k, "getTypeDetails") }), rOrderOneLine, rProbeOrder, rVisitAll, rDomainGetter, rFramePerEntry, rReport, rReverse, rFuncName, rIndexFound, rPerLayer, scoped(rWalkMulti, "the report visitor", func(_ *core.Ctx, k string) bool { return strings.Contains(k, "visitAllMulti") }), rStackSlot, rStackParse, scoped(rStackEmpty, "the frame parser", func(_ *core.Ctx, k string) bool { return strings.Contains(k, "parsePrintedStack:") }), scoped(rOneParser, "GetReportableStackTrace", func(_ *core.Ctx, k string) bool { return containsAny(k, "GetReportableStackTrace", "convertPkgStack") }), rEffectReport, {Name: "R-TAINT/S5", Doc: "the S5 sub-class of R-TAINT: provenance of every value written into the Sentry message, exceptions and extras", Run: func(c *core.Ctx) { runTaintFiltered(c, func(s *Sink) bool { return s.Class == "S5" }) }},
 			{Name: "R-LOOP-EXITS", Doc: rLoopExits.Doc, Run: func(c *core.Ctx) { runLoopExits(c, map[string]bool{"report.visitAllMulti": true}) }}},
 		Explain: "Decides: nil gives (nil, nil); the layer walk visits every node of the tree; stacks and safe details are collected in lock-step per node; every exception's module is the error's domain; the message is laid out source location / redacted verbose rendering / composition; the 'error types' extra is the per-layer buffer; the stack re-parsing covers the same type keys as the one-line source; provenance of every event field (S5). " +
 			"NOT decided: counting/ordering relations over runtime lists (exactly one exception per stack, one type line per layer).",
@@ -51,7 +51,7 @@ func init() {
 	})
 	register(&Prop{
 		ID: "C12",
-		Rules: []*Rule{rDepth, scoped(rFormatArg, "a constant message is stored as it is, never interpreted as a format", func(_ *core.Ctx, k string) bool { return containsAny(k, "errutil.") }), rOwnedBranches, rArgUsed, forwardScoped("WithSafeDetails", "GetAllSafeDetails", "GetSafeDetails", "WithTelemetry", "WithDomain", "New*", "Errorf", "Wrap*", "WithMessage*"), rPassThroughGuard, scoped(rEffect, "read-only operations (accessors, SafeDetails, report building) never rewrite what an error carries as safe details", func(_ *core.Ctx, k string) bool {
+		Rules: []*Rule{{Name: "R-TAINT/redactable", Doc: "a text the library declares safe stays safe as a whole: conversions to redact.RedactableString take only strings that were built as redactable - a constant message relabelled by a cast has the parts between marker runes treated as unsafe and redacted away", Run: func(c *core.Ctx) { runTaintFiltered(c, func(s *Sink) bool { return s.Mode == "redactable" }) }}, rFmtProbeOrder, rDepth, scoped(rFormatArg, "a constant message is stored as it is, never interpreted as a format", func(_ *core.Ctx, k string) bool { return containsAny(k, "errutil.") }), rOwnedBranches, rArgUsed, forwardScoped("WithSafeDetails", "GetAllSafeDetails", "GetSafeDetails", "WithTelemetry", "WithDomain", "New*", "Errorf", "Wrap*", "WithMessage*"), rPassThroughGuard, scoped(rEffect, "read-only operations (accessors, SafeDetails, report building) never rewrite what an error carries as safe details", func(_ *core.Ctx, k string) bool {
 			return containsAny(k, "SafeDetails", "safeDetails", "tags", "keys", "details")
 		}), rRetain, rErrRefs, rHideKeep, rLoopAlias, rAlwaysWraps, rMemo, scoped(rStdIdentity, "formatting and reporting code", func(_ *core.Ctx, k string) bool {
 			return containsAny(k, "errutil.", "errbase.", "report.", "withstack.", "safedetails.", "barriers.", "secondary.")
@@ -62,14 +62,14 @@ func init() {
 	})
 	register(&Prop{
 		ID:    "C18",
-		Rules: []*Rule{rGlobalAddr, rGlobalAlias, rEffect},
+		Rules: []*Rule{rResultFresh, rGlobalAddr, rGlobalAlias, rEffect},
 		Explain: "Decides, for every schedule at once, that no hand-written module function reachable from a read-only operation writes to state shared between goroutines: not to (anything reachable from) an error object through a non-fresh pointer, not to a package-level variable or map (unless under a dominating Lock()), and that no map iteration order can reach a result (determinism). " +
 			"NOT decided: races inside dependencies (redact, sentry, fmt, logtags), foreign error types' methods, 'same result as alone' beyond absence of shared writes and map-order dependence.",
 		Trusted: []string{"go/ssa + VTA call graph (no go/pointer: freshness is by allocation site and call-site check)", "dependencies are race-free for read-only use"},
 	})
 	register(&Prop{
 		ID:    "C11",
-		Rules: []*Rule{rMemo, scoped(rGrpcFlow, "the gRPC code of an error is the same after the interceptors as after a direct transfer", nil), rProbeOrder, rOSPredicate, rFramePerEntry, rCodec, rPayloadDecoder, rGenericPath, rListRoundTrip, rDecline, rRegType, rErrnoTable, rStackSlot, rStackWhole, rStackParse, rStackEmpty, rTreeRec, rOneParser, rSiblingGuard, rCodeGetter},
+		Rules: []*Rule{scoped(rFormatArg, "decoders: a received text is stored, never used as a format", func(_ *core.Ctx, k string) bool { return containsAny(k, ".decode") }), rEncVerbatim, rMemo, scoped(rGrpcFlow, "the gRPC code of an error is the same after the interceptors as after a direct transfer", nil), rProbeOrder, rOSPredicate, rFramePerEntry, rCodec, rPayloadDecoder, rGenericPath, rListRoundTrip, rDecline, rRegType, rErrnoTable, rStackSlot, rStackWhole, rStackParse, rStackEmpty, rTreeRec, rOneParser, rSiblingGuard, rCodeGetter},
 		Explain: "Decides, for every registered type key, that each annotation field has a wire slot that the writer fills from that same field and the reader restores into that same field (payload members, positional safe details, message), that decoders rebuild the key's own type (so flag types recognised by Go type survive), that errno predicates travel in matching pairs, and that the printed-stack slot is re-parsed for the same key set by both stack accessors. " +
 			"NOT decided: equality of re-parsed frames (text parsing), tag values rendered through ValueStr, OS predicates on foreign platforms beyond the pairing.",
 		Trusted: []string{"go/ssa", "gogo/protobuf marshalling of the payload messages"},
@@ -85,7 +85,7 @@ func init() {
 	})
 	register(&Prop{
 		ID:    "C02",
-		Rules: []*Rule{rErrnoTable, rGenericMsg, rMigration, rTypeNameRaw, rKeyMarker, scoped(rCodec, "identity-relevant fields: those Error() reads, explicit marks, domains", codecIdentityFields), rRegType, rDecodeResult, rDecline, rOpaque, rTypeKeyWho, rMarkLayers, rTreeRec, rSep, scoped(rShape, "the opaque types (the text an unknowing process contributes to identity)", func(_ *core.Ctx, k string) bool { return strings.Contains(k, "opaque") }), scoped(rFormatArg, "encoders, decoders and the opaque types", func(_ *core.Ctx, k string) bool { return containsAny(k, ".decode", ".encode", "opaque") }), scoped(rStdIdentity, "identity tests", func(_ *core.Ctx, k string) bool { return containsAny(k, "errors.Is", "errors.As") }), scoped(rAlwaysWraps, "Mark: the portable mark is always attached", func(_ *core.Ctx, k string) bool { return strings.Contains(k, "Mark(") })},
+		Rules: []*Rule{scoped(rWalkMulti, "the encoder walk: every branch of a multi-cause node is encoded through EncodeError", func(_ *core.Ctx, k string) bool { return containsAny(k, "EncodeError") }), rErrnoTable, rGenericMsg, rMigration, rTypeNameRaw, rKeyMarker, scoped(rCodec, "identity-relevant fields: those Error() reads, explicit marks, domains", codecIdentityFields), rRegType, rDecodeResult, rDecline, rOpaque, rTypeKeyWho, rMarkLayers, rTreeRec, rSep, scoped(rShape, "the opaque types (the text an unknowing process contributes to identity)", func(_ *core.Ctx, k string) bool { return strings.Contains(k, "opaque") }), scoped(rFormatArg, "encoders, decoders and the opaque types", func(_ *core.Ctx, k string) bool { return containsAny(k, ".decode", ".encode", "opaque") }), scoped(rStdIdentity, "identity tests", func(_ *core.Ctx, k string) bool { return containsAny(k, "errors.Is", "errors.As") }), scoped(rAlwaysWraps, "Mark: the portable mark is always attached", func(_ *core.Ctx, k string) bool { return strings.Contains(k, "Mark(") })},
 		Explain: "Identity = (Error() text, chain of (family name, extension)). Decides that every identity-relevant field has slot agreement (incl. withMark's explicit mark and withDomain's extension), decoders rebuild the key's type, unknowing hops keep and re-emit the received names, every consumer of identity goes through getTypeDetails with the full mark where the extension matters, and a mark has one full type mark per layer. " +
 			"NOT decided: that text is preserved (C01's undecided part), semantics of foreign Is methods, 'never starts matching' over all pairs.",
 		Trusted: []string{"go/ssa"},
@@ -101,7 +101,7 @@ func init() {
 	})
 	register(&Prop{
 		ID: "C07",
-		Rules: []*Rule{rArgNotCause, scoped(rNil, "WithSecondaryError with a nil primary error returns nil: the secondary error never becomes the result itself", func(_ *core.Ctx, k string) bool { return containsAny(k, "WithSecondaryError") }), rMarkLayers, rArgUsed, forwardScoped("Handled*", "Opaque", "HandleAsAssertionFailure*", "NewAssertionErrorWithWrappedErrf", "WithSecondaryError", "CombineErrors", "Mark"), rDomainGetter, scoped(rWriteFaithful, "the renderer gives back every newline it takes (Handled computes its message through it)", func(_ *core.Ctx, k string) bool { return strings.Contains(k, "separator") }), scoped(rDetailPrint, "the hidden errors of barriers and secondary-error wrappers are printed, as values, in the verbose rendering", func(_ *core.Ctx, k string) bool { return containsAny(k, "maskedErr", "secondaryError") }), rHide, rHideKeep, rBarrierCtor, rWrapDual, rErrRefs, rFormatArg, rSecondaryAttach, scoped(rRegType, "the barrier and secondary-error types", func(_ *core.Ctx, k string) bool { return containsAny(k, "barriers.", "secondary.") }), {Name: "R-CODEC", Doc: rCodec.Doc + " (restricted to the barrier and secondary-error types)", Run: func(c *core.Ctx) {
+		Rules: []*Rule{rBarrierFresh, rArgNotCause, scoped(rNil, "WithSecondaryError with a nil primary error returns nil: the secondary error never becomes the result itself", func(_ *core.Ctx, k string) bool { return containsAny(k, "WithSecondaryError") }), rMarkLayers, rArgUsed, forwardScoped("Handled*", "Opaque", "HandleAsAssertionFailure*", "NewAssertionErrorWithWrappedErrf", "WithSecondaryError", "CombineErrors", "Mark"), rDomainGetter, scoped(rWriteFaithful, "the renderer gives back every newline it takes (Handled computes its message through it)", func(_ *core.Ctx, k string) bool { return strings.Contains(k, "separator") }), scoped(rDetailPrint, "the hidden errors of barriers and secondary-error wrappers are printed, as values, in the verbose rendering", func(_ *core.Ctx, k string) bool { return containsAny(k, "maskedErr", "secondaryError") }), rHide, rHideKeep, rBarrierCtor, rWrapDual, rErrRefs, rFormatArg, rSecondaryAttach, scoped(rRegType, "the barrier and secondary-error types", func(_ *core.Ctx, k string) bool { return containsAny(k, "barriers.", "secondary.") }), {Name: "R-CODEC", Doc: rCodec.Doc + " (restricted to the barrier and secondary-error types)", Run: func(c *core.Ctx) {
 			runCodec(c, func(cp *codecPair) bool { return containsAny(cp.Name, "barriers.", "secondary.") })
 		}}, {Name: "R-TAINT/redactable", Doc: "the hidden message of a barrier is carried as a redactable string: conversions to redact.RedactableString in package barriers (and what its decoders receive) only from strings that were built as redactable - a plain string relabelled as redactable, or a redactable one escaped again, changes the message text after a hop", Run: func(c *core.Ctx) {
 			runTaintFiltered(c, func(s *Sink) bool { return s.Mode == "redactable" && strings.Contains(s.Name, "barriers.") })
@@ -122,7 +122,7 @@ func init() {
 	})
 	register(&Prop{
 		ID:    "C03",
-		Rules: []*Rule{rSafeSink, rTaint, rSpecialLeaf, rEsc, rBufFlag, rRedactableOps},
+		Rules: []*Rule{rFmtProbeOrder, rSafeSink, rTaint, rSpecialLeaf, rEsc, rBufFlag, rRedactableOps},
 		Explain: "Decides, for EVERY PII-free output position of the module and every value that can reach it (all compositions, hops and unknowing receivers at once, because decoders, opaque types and encoders are sources/sinks like any other), that its data origins lie in the library's documented safe classes: " +
 			"S1 SafeDetails()/GetSafeDetails payloads, S2 encoders' reportable strings, S3 every redact.Safe/Safe*-conversion/format-string/RedactableString-conversion site, S4 the formatter's final buffer (raw layer text only under !redactable || entry.redactable, else escaped; redactable flag only on safe-printer arms), S5 every write into the Sentry message/exception/extras; the special-case printers declare whole texts safe only for true leaves. " +
 			"NOT decided: the redact package's own escaping of marker runes and newlines inside strings (hostile alphabet), third-party SafeDetails()/SafeFormatter implementations (contract trusted).",
@@ -130,7 +130,9 @@ func init() {
 	})
 	register(&Prop{
 		ID: "C14",
-		Rules: []*Rule{rJoinFilter, rMultiUncond, rProtocol, rWrapDual, rStdIdentity, rUnwrapAll, rWalkCurrent, rCmpGuard, rIsMethod, rAsTarget, rOwnedBranches, scoped(rWalkMulti, "Is, IsAny, As", func(_ *core.Ctx, k string) bool {
+		Rules: []*Rule{rIsDelegate, {Name: "R-LOOP-EXITS", Doc: rLoopExits.Doc + " (here: Is, IsAny and As test every layer itself before, or besides, searching its branches)", Run: func(c *core.Ctx) {
+			runLoopExits(c, map[string]bool{"markers.Is": true, "markers.IsAny": true, "errutil.As": true})
+		}}, rJoinFilter, rMultiUncond, rProtocol, rWrapDual, rStdIdentity, rUnwrapAll, rWalkCurrent, rCmpGuard, rIsMethod, rAsTarget, rOwnedBranches, scoped(rWalkMulti, "Is, IsAny, As", func(_ *core.Ctx, k string) bool {
 			return containsAny(k, "markers.Is", "errutil.As", "is a leaf for UnwrapOnce")
 		}), forwardScoped("Is", "IsAny", "As", "If", "HasType", "HasInterface", "Unwrap", "UnwrapOnce", "UnwrapAll", "UnwrapMulti", "Cause")},
 		Explain: "Decides the structural side of drop-in compatibility: the library probes exactly the standard protocol methods (Is/As/Unwrap/Unwrap []error/Cause) with their exact signatures and precedence; every library wrapper implements both Cause() and Unwrap() over the same field so stdlib and pkg/errors traverse library chains; Is/As recurse into multi-cause branches in order; the root API forwards to the right implementation with parameters in order. " +
@@ -144,7 +146,7 @@ func init() {
 		}), rOwnedBranches, rLoopAlias, rJoinNode, rDecodeNonNil, scoped(rProtocol, "multi-cause errors are leaves for UnwrapOnce", func(_ *core.Ctx, k string) bool {
 			return containsAny(k, "UnwrapOnce", "UnwrapMulti", "Unwrap() []error")
 		}), scoped(rShape, "the multi-cause types: Error() and the formatter render the same, live, branch texts", func(_ *core.Ctx, k string) bool { return containsAny(k, "join", "Causes") }), scoped(rFmtDelegate, "the multi-cause types (their own Format must hand the whole node to the dispatcher)", func(_ *core.Ctx, k string) bool { return containsAny(k, "opaqueLeafCauses", "joinError", "Causes") }), {Name: "R-LOOP-EXITS", Doc: rLoopExits.Doc, Run: func(c *core.Ctx) {
-			runLoopExits(c, map[string]bool{"markers.Is": true, "markers.IsAny": true, "report.visitAllMulti": true})
+			runLoopExits(c, map[string]bool{"markers.Is": true, "markers.IsAny": true, "errutil.As": true, "report.visitAllMulti": true})
 		}}},
 		Explain: "Decides that every tree walker (Is, IsAny, As, formatter, report visitor, encoder) applies itself to each branch of every chain node's UnwrapMulti in forward order, and that multi-cause types are leaves for Unwrap/UnwrapOnce. " +
 			"NOT decided: 'exactly when' (no false positives of the search), Join dropping nils / nil result, Error() = newline-joined branch texts.",
@@ -152,24 +154,26 @@ func init() {
 	})
 	register(&Prop{
 		ID:    "C09",
-		Rules: []*Rule{rFinish, rVisitAll, rFormattable, rFmtDelegate, rShape, rDetailPrint, rElide, rVerbDispatch, rGuardField, rSep, rStateFlags, rWriteFaithful, scoped(rFormatArg, "the detail formatters: a stored text is printed, not used as a format", func(_ *core.Ctx, k string) bool { return containsAny(k, "FormatError", "SafeFormatError") }), rSpecialText, scoped(rCodec, "clause A2: details that a decoder reads by position are written at fixed positions, so each wrapper's own detail lands in its own field (and is printed under its own label) after a hop", func(_ *core.Ctx, k string) bool { return strings.Contains(k, "] A2 ") })},
+		Rules: []*Rule{scoped(rProtocol, "UnwrapOnce probes the single-cause protocols only, so the formatter enters every node once", func(_ *core.Ctx, k string) bool { return strings.Contains(k, "UnwrapOnce") }), rFinish, rVisitAll, rFormattable, rFmtDelegate, rShape, rDetailPrint, rElide, rVerbDispatch, rGuardField, rSep, rStateFlags, rWriteFaithful, scoped(rFormatArg, "the detail formatters: a stored text is printed, not used as a format", func(_ *core.Ctx, k string) bool { return containsAny(k, "FormatError", "SafeFormatError") }), rSpecialText, scoped(rCodec, "clause A2: details that a decoder reads by position are written at fixed positions, so each wrapper's own detail lands in its own field (and is printed under its own label) after a hop", func(_ *core.Ctx, k string) bool { return strings.Contains(k, "] A2 ") })},
 		Explain: "Decides the code-level reasons the verbs are mutually consistent: every instantiated library type routes Format through the single dispatcher FormatError; Error() and the detail formatter of each type agree on the message shape (so %v/%s = Error() at every depth); each wrapper's annotation fields reach a Print inside the detail region. " +
 			"NOT decided: width/precision/flag rendering (delegated to fmt), entry numbering/indentation and the 'Error types' line (loop arithmetic over runtime lists), comparison with reference renderings.",
 		Trusted: []string{"go/ssa", "fmt and redact formatting semantics"},
 	})
 	register(&Prop{
 		ID: "C08",
-		Rules: []*Rule{rIsAnyNil, rTypeNameRaw, scoped(rOpaque, "a received layer keeps the family name it came with (getTypeDetails of the opaque types)", func(_ *core.Ctx, k string) bool { return strings.Contains(k, "getTypeDetails") }), scoped(rEffect, "Is/IsAny are pure functions of their arguments: no package-level memo of marks", func(_ *core.Ctx, k string) bool { return containsAny(k, "markers.", "getMark", "Mark") }), rKeyMarker, rCmpGuard, {Name: "R-BOUNDS", Doc: rBounds.Doc + " (restricted to package markers: equalMarks' lock-step indexing is also the 'difference in chain length makes them different' clause)",
+		Rules: []*Rule{rWalkFull, rIsAnyNil, rTypeNameRaw, scoped(rOpaque, "a received layer keeps the family name it came with (getTypeDetails of the opaque types)", func(_ *core.Ctx, k string) bool { return strings.Contains(k, "getTypeDetails") }), scoped(rEffect, "Is/IsAny are pure functions of their arguments: no package-level memo of marks", func(_ *core.Ctx, k string) bool { return containsAny(k, "markers.", "getMark", "Mark") }), rKeyMarker, rCmpGuard, {Name: "R-BOUNDS", Doc: rBounds.Doc + " (restricted to package markers: equalMarks' lock-step indexing is also the 'difference in chain length makes them different' clause)",
 			Run: func(c *core.Ctx) {
 				runBounds(c, func(rel, fn string) bool { return rel == "markers" })
-			}}, rRecover, rNilSafe, rMarkLayers, rCtorCause, rWalkCurrent, rIsMethod, scoped(rWalkMulti, "Is and IsAny range over errbase.UnwrapMulti itself (no derived collection keyed by error values, which may be unhashable)", func(_ *core.Ctx, k string) bool { return strings.Contains(k, "markers.Is") }), rMemo, scoped(rAlwaysWraps, "Mark", func(_ *core.Ctx, k string) bool { return strings.Contains(k, "Mark(") }), scoped(rStdIdentity, "identity tests", func(_ *core.Ctx, k string) bool { return containsAny(k, "errors.Is", "errors.As") }), {Name: "R-LOOP-EXITS", Doc: rLoopExits.Doc, Run: func(c *core.Ctx) { runLoopExits(c, map[string]bool{"markers.Is": true, "markers.IsAny": true}) }}},
+			}}, rRecover, rNilSafe, rMarkLayers, rCtorCause, rWalkCurrent, rIsMethod, scoped(rWalkMulti, "Is and IsAny range over errbase.UnwrapMulti itself (no derived collection keyed by error values, which may be unhashable)", func(_ *core.Ctx, k string) bool { return strings.Contains(k, "markers.Is") }), rMemo, scoped(rAlwaysWraps, "Mark", func(_ *core.Ctx, k string) bool { return strings.Contains(k, "Mark(") }), scoped(rStdIdentity, "identity tests", func(_ *core.Ctx, k string) bool { return containsAny(k, "errors.Is", "errors.As") }), {Name: "R-LOOP-EXITS", Doc: rLoopExits.Doc, Run: func(c *core.Ctx) {
+			runLoopExits(c, map[string]bool{"markers.Is": true, "markers.IsAny": true, "errutil.As": true})
+		}}},
 		Explain: "Decides the totality clauses of Is/IsAny and the chain-length clause of mark equivalence: no unguarded interface comparison, no unproven lock-step index in markers, Error() of foreign errors only under recover, and no nil dereference reachable with nil inputs over the whole accessor surface. " +
 			"NOT decided: reflexivity, monotonicity under wrappers, IsAny = OR of Is, and 'exactly when' (semantic equivalences over all pairs of errors).",
 		Trusted: []string{"go/ssa", "reflect.Type.Comparable semantics", "nilness lattice"},
 	})
 	register(&Prop{
 		ID: "C16",
-		Rules: []*Rule{rPkgDomain, rProbeOrder, forwardScoped("New*", "Errorf", "Wrap*", "WithStack*", "Join*", "AssertionFailed*", "NewAssertionErrorWithWrappedErrf", "HandleAsAssertionFailure*", "UnimplementedError*", "GetOneLineSource", "GetReportableStackTrace"), rStackParse, scoped(rJoinNode, "JoinWithDepth always goes through WithStackDepth: no shortcut returns an argument without the stack of the call", func(_ *core.Ctx, k string) bool { return strings.Contains(k, "JoinWithDepth") }), rDepth, rMemo, rFuncName, rStackWhole, scoped(rAlwaysWraps, "the stack-capturing constructors: a stack is captured at every call, never skipped because of what the error already carries", func(_ *core.Ctx, k string) bool {
+		Rules: []*Rule{rStackRaw, rPkgDomain, rProbeOrder, forwardScoped("New*", "Errorf", "Wrap*", "WithStack*", "Join*", "AssertionFailed*", "NewAssertionErrorWithWrappedErrf", "HandleAsAssertionFailure*", "UnimplementedError*", "GetOneLineSource", "GetReportableStackTrace"), rStackParse, scoped(rJoinNode, "JoinWithDepth always goes through WithStackDepth: no shortcut returns an argument without the stack of the call", func(_ *core.Ctx, k string) bool { return strings.Contains(k, "JoinWithDepth") }), rDepth, rMemo, rFuncName, rStackWhole, scoped(rAlwaysWraps, "the stack-capturing constructors: a stack is captured at every call, never skipped because of what the error already carries", func(_ *core.Ctx, k string) bool {
 			return containsAny(k, "WithStack", "Wrap", "AssertionFail", "AssertionError", "HandleAsAssertion")
 		}), scoped(rBarrierCtor, "the assertion-failure constructors", func(_ *core.Ctx, k string) bool { return containsAny(k, "Assertion") }), scoped(rStackEmpty, "the one-line source parser", func(_ *core.Ctx, k string) bool { return strings.Contains(k, "getOneLineSourceFromPrintedStack") }), rOrderOneLine, scoped(rOneParser, "GetOneLineSource", func(_ *core.Ctx, k string) bool {
 			return containsAny(k, "GetOneLineSource", "getOneLineSourceFromPkgStack")
@@ -179,8 +183,12 @@ func init() {
 		Trusted: []string{"go/ssa", "semantics of runtime.Callers(skip)/runtime.Caller(skip) incl. inlined frames"},
 	})
 	register(&Prop{
-		ID:    "C10",
-		Rules: []*Rule{scoped(rBarrierCtor, "Wrapf with an error among its arguments: the wrapped error stays the primary one (prefix: cause-text)", func(_ *core.Ctx, k string) bool { return containsAny(k, "WrapWithDepthf", "secondary") }), rArgUsed, rMultiUncond, rPassThroughGuard, {Name: "R-LOOP-EXITS", Doc: rLoopExits.Doc + " (here: the walks of Is and IsAny - a wrapper above a matching layer never ends the search early)", Run: func(c *core.Ctx) { runLoopExits(c, map[string]bool{"markers.Is": true, "markers.IsAny": true}) }}, rNil, rBoxedNil, rShape, rWrapDual, rCtorCause, rAlwaysWraps, rFormatStored, rOwnedBranches, scoped(rWalkCurrent, "Is, IsAny, If, As and the accessors", nil), scoped(rWalkMulti, "Is, IsAny, As: every layer of the chain looks into its branches, so a match inside a branch survives any wrapper", func(_ *core.Ctx, k string) bool { return containsAny(k, "markers.Is", "errutil.As") }), rFormatArg, rFmtPath, forwardScoped("New*", "Wrap*", "With*", "Errorf", "Handled*", "Opaque", "Mark", "CombineErrors", "Join*", "AssertionFailed*", "NewAssertionErrorWithWrappedErrf", "HandleAsAssertionFailure*", "UnimplementedError*")},
+		ID: "C10",
+		Rules: []*Rule{rSep, scoped(rBarrierCtor, "Wrapf with an error among its arguments: the wrapped error stays the primary one (prefix: cause-text)", func(_ *core.Ctx, k string) bool {
+			return containsAny(k, "WrapWithDepthf", "secondary", "Handled", "barriers")
+		}), rArgUsed, rMultiUncond, rPassThroughGuard, {Name: "R-LOOP-EXITS", Doc: rLoopExits.Doc + " (here: the walks of Is and IsAny - a wrapper above a matching layer never ends the search early)", Run: func(c *core.Ctx) {
+			runLoopExits(c, map[string]bool{"markers.Is": true, "markers.IsAny": true, "errutil.As": true})
+		}}, rNil, rBoxedNil, rShape, rWrapDual, rCtorCause, rAlwaysWraps, rFormatStored, rOwnedBranches, scoped(rWalkCurrent, "Is, IsAny, If, As and the accessors", nil), scoped(rWalkMulti, "Is, IsAny, As: every layer of the chain looks into its branches, so a match inside a branch survives any wrapper", func(_ *core.Ctx, k string) bool { return containsAny(k, "markers.Is", "errutil.As") }), rFormatArg, rFmtPath, forwardScoped("New*", "Wrap*", "With*", "Errorf", "Handled*", "Opaque", "Mark", "CombineErrors", "Join*", "AssertionFailed*", "NewAssertionErrorWithWrappedErrf", "HandleAsAssertionFailure*", "UnimplementedError*")},
 		Explain: "Decides the nil clauses of the property for every exported constructor on every path (nilness abstract interpretation, no execution). " +
 			"NOT decided: equality of Error() strings with the compositional model, 'Join of only nils = nil' (a count over runtime arguments).",
 		Trusted: []string{"go/ssa", "nilness lattice with branch refinement; unknown callees are Top"},
